@@ -1,9 +1,66 @@
-(** Property C03 — theorems only (statement, [exact], [Print Assumptions]).
-    See DESIGN.md section 5 for how each statement renders the property. *)
-From CB Require Import ProofLib Spec Inv_map.
+(** Property C03 - disposal is respected
+    Theorems only: statement, [exact], [Print Assumptions].  The statements are about the model
+    (coq/theories/Ops.v) under the conformant environment (Machine.v: [reach]); the readable trace
+    predicates are defined in MonitorSound.v, the parameter regimes in Results.v.  How each
+    statement renders the property, and how the model is tied to /repo, is in DESIGN.md. *)
+From CB Require Import ProofLib Spec MonitorSound Results.
+From CB Require Import Inv_combine Inv_share.
 
-Theorem C03_map (f : val -> val) p :
-  nsinks p = 1 -> resub p = false -> no_nest p = false -> c14 p = false ->
-  forall c : cfg (map_op f), reach p g_std c -> viols (ms c) = [] /\ dead c = false.
-Proof. exact (@map_safe f p). Qed.
+Theorem C03_map (f : val -> val) p (c : cfg (map_op f)) :
+  std p -> reach p g_std c -> forall s, dispose_respected s (trace c).
+Proof. exact (fun H Hc => pk_c03 (map_protocol H Hc)). Qed.
 Print Assumptions C03_map.
+
+Theorem C03_filter (cond : val -> bool) p (c : cfg (filter_op cond)) :
+  std p -> reach p g_std c -> forall s, dispose_respected s (trace c).
+Proof. exact (fun H Hc => pk_c03 (filter_protocol H Hc)). Qed.
+Print Assumptions C03_filter.
+
+Theorem C03_scan (r : val -> val -> val) (seed : val) p (c : cfg (scan_op r seed)) :
+  std p -> reach p g_std c -> forall s, dispose_respected s (trace c).
+Proof. exact (fun H Hc => pk_c03 (scan_protocol H Hc)). Qed.
+Print Assumptions C03_scan.
+
+Theorem C03_skip (max : nat) p (c : cfg (skip_op max)) :
+  std p -> reach p g_std c -> forall s, dispose_respected s (trace c).
+Proof. exact (fun H Hc => pk_c03 (skip_protocol H Hc)). Qed.
+Print Assumptions C03_skip.
+
+Theorem C03_take (max : nat) p (c : cfg (take_op max)) (Hmax : 1 <= max) :
+  std p -> reach p g_std c -> forall s, dispose_respected s (trace c).
+Proof. exact (fun H Hc => pk_c03 (take_protocol Hmax H Hc)). Qed.
+Print Assumptions C03_take.
+
+Theorem C03_from_iter (it : nat -> option val) p (c : cfg (from_iter_op it)) :
+  std_nonest p -> reach p g_std c -> forall s, dispose_respected s (trace c).
+Proof. exact (fun H Hc => pk_c03 (from_iter_protocol H Hc)). Qed.
+Print Assumptions C03_from_iter.
+
+Theorem C03_interval p (c : cfg interval_op) :
+  std p -> reach p (fun _ _ => true) c -> forall s, dispose_respected s (trace c).
+Proof. exact (fun H Hc => pk_c03 (interval_protocol H Hc)). Qed.
+Print Assumptions C03_interval.
+
+Theorem C03_merge (n : nat) p (c : cfg (merge_op n)) (Hn : 1 <= n) :
+  std_late p -> reach p g_std c -> forall s, dispose_respected s (trace c).
+Proof. exact (fun H Hc => pk_c03 (merge_protocol Hn H Hc)). Qed.
+Print Assumptions C03_merge.
+
+Theorem C03_concat (n : nat) p (c : cfg (concat_op n)) :
+  std p -> reach p g_std c -> forall s, dispose_respected s (trace c).
+Proof. exact (fun H Hc => pk_c03 (concat_protocol H Hc)). Qed.
+Print Assumptions C03_concat.
+
+(** share, for every number of sinks, as C12 quantifies it (no nested fan-out: guard [g_share]) *)
+Theorem C03_share p (c : cfg share_op) :
+  share_regime p -> reach p g_share c -> forall s, dispose_respected s (trace c).
+Proof. exact (fun H Hc => sk_c03 (share_protocol H Hc)). Qed.
+Print Assumptions C03_share.
+
+(** combine (every arity n >= 1).  combine has recorded deviations (known_findings.json: KF1, KF2);
+    the theorem is that the monitor never records anything *but* those four kinds, so the
+    kinds of this property never occur. *)
+Theorem C03_combine (n : nat) p (c : cfg (combine_op n)) :
+  1 <= n -> std p -> reach p g_std c -> (forall s, ~ In (VAfterDispose s) (viols (ms c))).
+Proof. exact (@combine_c03 n p c). Qed.
+Print Assumptions C03_combine.
